@@ -58,6 +58,10 @@ func checkC14(w *World, r *Report) {
 	c14Diff(w, r)
 	c14Isolation(w, r)
 	c14KeySpace(w, r)
+	if mt := metaType(w); mt != nil {
+		c13Snapshot(w, r, mt, "C14.h", "h-catalogue-snapshot-replaces")
+	}
+	c05Reconcile(w, r, "C14.i", "i-follower-catalogue-follows")
 }
 
 func c14Create(w *World, r *Report) {
@@ -169,17 +173,27 @@ func c14Seq(w *World, r *Report) {
 	}
 	var set ssa.Instruction
 	var get ssa.Value
+	nSet, nGet := 0, 0
 	eachInstr(fn, func(in ssa.Instruction) {
 		if isStoreCall(in, "Set") {
-			set = in
+			nSet++
+			if set == nil {
+				set = in
+			}
 		}
 		if isStoreCall(in, "Get") {
+			nGet++
 			get = in.(ssa.Value)
 		}
 	})
 	if set == nil || get == nil {
 		ob.Undecided("shape", "id sequence does not read and write the store")
 		return
+	}
+	// one read, one compare-and-set write: a second write (a "retry" with the version stored
+	// now) writes a value computed from a read that is no longer current
+	if nSet > 1 {
+		ob.Violate("seq-second-write", fn.Pos(), "the id sequence writes "+itoa(nSet)+" times for one read: a write that follows a lost compare-and-set carries a value computed from the stale read - two allocations get the same id, or the sequence moves backwards")
 	}
 	ctx := &ExprCtx{Alias: map[ssa.Value]string{get: "get"}}
 	c := plainCall(set)
@@ -603,6 +617,9 @@ func checkC15(w *World, r *Report) {
 	c15Lease(w, r)
 	c15Return(w, r)
 	c15Worker(w, r, "C15.c", "c-worker-obeys-lease")
+	if mt := metaType(w); mt != nil {
+		c13Snapshot(w, r, mt, "C15.e", "e-store-snapshot-replaces")
+	}
 	// the compare-and-set the lease relies on: a version handed out once never comes back
 	// (versions are log indices), and a write needs the current version (shared with C13.a/b)
 	c13Gate(w, r, metaUpdate(w), "C15.d1", "C15.d2")
@@ -1130,8 +1147,37 @@ func c14KeySpace(w *World, r *Report) {
 			}
 		})
 	}
+	// the same for a record removed (or written) directly under the key of a name parameter:
+	// DeleteTable("sys/idseq") would remove the id sequence, "x/lease" the lease of table x
+	for _, f := range methods {
+		eachInstr(f, func(in ssa.Instruction) {
+			if !isStoreCall(in, "Delete") && !isStoreCall(in, "Set") {
+				return
+			}
+			c := plainCall(in)
+			key := c.Args[0]
+			for _, p := range f.Params {
+				b, ok := p.Type().Underlying().(*types.Basic)
+				if !ok || b.Kind() != types.String {
+					continue
+				}
+				if Expr(key) != "storage/table.storedTableName("+Expr(p)+")" {
+					continue
+				}
+				n++
+				what := "removed"
+				if isStoreCall(in, "Set") {
+					what = "written"
+				}
+				ob.Site(in.Pos(), "record "+what+" under the key of the name parameter `"+Expr(p)+"` in "+FnName(f))
+				if !guardedAt(f, in, p, 0) {
+					ob.Violate("name-unchecked@"+FnName(f), in.Pos(), FnName(f)+" can have a catalogue record "+what+" under the key built from a name it was given without a separator test having been passed: the name sys/idseq addresses the id sequence, x/lease the lease of table x")
+				}
+			}
+		})
+	}
 	if n == 0 {
 		ob.Undecided("shape", "no record write for a name parameter found")
 	}
-	ob.NeedFloor(3)
+	ob.NeedFloor(4)
 }
